@@ -370,7 +370,7 @@ func main() {
 	}
 	only := os.Getenv("VERIF_ONLY")
 	unconstrained := map[string][]string{}
-	nRandom := r.Pick(400, 3000)
+	nRandom := r.Pick(400, 15000)
 	var names []string
 	for _, s := range structs {
 		if only != "" && s.Name != only {
